@@ -30,6 +30,8 @@ Ks == { [kind |-> "rat", n |-> k, d |-> One] : k \in {j \in KInts : Le(j, U64Max
              [kind |-> "rat", n |-> Pow2(70), d |-> One],                    \* 2^70: an integer no rep can hold
              \* huge and tiny ratios that only floating targets can take (km^3 -> nm^3 is 10^36; 2147 * 10^36 exceeds float's range)
              [kind |-> "rat", n |-> P10_36, d |-> One], [kind |-> "rat", n |-> One, d |-> P10_36], [kind |-> "rat", n |-> P10_305, d |-> One] }
-KName(k) == IF k.kind = "irr" THEN "pi" ELSE IF k.n = Pow2(70) THEN "pow2_70" ELSE IF k.n = P10_36 THEN "pow10_36" ELSE IF k.d = P10_36 THEN "pow10_m36"
-            ELSE IF k.n = P10_305 THEN "pow10_305" ELSE "rat"
+\* the named special factors are recognised by their size (limb counts), so that the big powers are not recomputed for every case
+KName(k) == IF k.kind = "irr" THEN "pi"
+            ELSE IF Len(k.n.l) = 77 THEN "pow10_305" ELSE IF Len(k.n.l) = 10 /\ k.d = One THEN "pow10_36" ELSE IF Len(k.d.l) = 10 THEN "pow10_m36"
+            ELSE IF Len(k.n.l) = 6 /\ k.d = One /\ ~Le(k.n, U64Max) THEN "pow2_70" ELSE "rat"
 =============================================================================
